@@ -60,13 +60,13 @@ theorem view_popFrame_f (n : Nat)
 
 @[simp] theorem view_popFrame (fuel : Nat) (s : Streams) (maxLen : Nat) :
     view (Streams.popFrame fuel s maxLen).1 = view s := by
-  induction fuel generalizing s with
+  induction fuel generalizing s maxLen with
   | zero => rw [popFrame_zero]
   | succ n ih =>
     rw [popFrame_succ_f]
     apply view_popFrame_f
     intro s m
     rw [popFrame_below]
-    exact ih s
+    exact ih s m
 
 end H2V.Lemmas.ConnCtlP
